@@ -326,15 +326,11 @@ class GTR(SymmetricSubstitutionModel):
         self.fire_model_changed()
 
     def q(self) -> torch.Tensor:
-        if len(self.frequencies.shape[:-1]) != len(self.rates.shape[:-1]):
-            pi = self.frequencies.unsqueeze(0).unsqueeze(-2)
-            rates = self.rates.unsqueeze(-2)
-        elif len(self.frequencies.shape) == 1:
-            pi = self.frequencies.unsqueeze(0)
-            rates = self.rates.unsqueeze(0)
-        else:
-            pi = self.frequencies.unsqueeze(-2)
-            rates = self.rates.unsqueeze(-2)
+        batch_shape = torch.broadcast_shapes(
+            self.rates.shape[:-1], self.frequencies.shape[:-1]
+        )
+        pi = self.frequencies.expand(batch_shape + (4,)).unsqueeze(-2)
+        rates = self.rates.expand(batch_shape + (6,)).unsqueeze(-2)
         return torch.cat(
             (
                 -(
@@ -371,7 +367,7 @@ class GTR(SymmetricSubstitutionModel):
                 ),
             ),
             -1,
-        ).reshape(self.rates.shape[:-1] + (4, 4))
+        ).reshape(batch_shape + (4, 4))
 
     @classmethod
     def from_json(cls, data, dic):
